@@ -8,7 +8,7 @@ open LolHtml LolHtml.Model
 variable {κ : Type}
 
 section
-variable {env : Env κ} {inpS inpW : Bytes} {δ : Nat} {K : Nat → κ → κ → Prop} {Loc : κ → Nat → Prop}
+variable {env : Env κ} {inpS inpW : Bytes} {δ : Nat} {K : Nat → κ → κ → Prop} {Loc : κ → Nat → Nat → TextType → Prop}
 
 theorem ScanRel.weaken' {np : Nat} {ab ab' : Ab} {ss sw : ScanRegs} (h : ScanRel δ ab np ss sw)
     (hP : ab'.P = true → ab.P = true) (hSt : ab'.St = true → ab.St = true) (hSn : ab'.Sn = true → ab.Sn = true) :
